@@ -16,7 +16,9 @@ VARIABLES S, tried
 \* ---- case table for the Go harness ----------------------------------------------------
 PortSeq == SetToSortSeq(Ports, LexLess)
 
-CaseSets == { T \in SUBSET Regs : Cardinality(T) >= 1 /\ Cardinality(T) <= MaxRegs }
+\* all sets of 1..MaxRegs registrations, built by size (SUBSET Regs would be 2^28 sets for the larger alphabets)
+SetsUpTo[i \in 0..MaxRegs] == IF i = 0 THEN { {} } ELSE SetsUpTo[i - 1] \cup { T \cup {x} : T \in SetsUpTo[i - 1], x \in Regs }
+CaseSets == SetsUpTo[MaxRegs] \ { {} }
 
 CaseOf(T) == [regs |-> SetToSeq(T), perms |-> SetToSeq(SetToSeqs(T))]
 
